@@ -882,11 +882,15 @@ LeadLen(b, i) == IF i > Len(b) \/ ~IsImportStmt(b[i]) THEN i - 1 ELSE LeadLen(b,
 Lead(b) == SubSeq(b, 1, LeadLen(b, 1))
 AfterLead(b) == SubSeq(b, LeadLen(b, 1) + 1, Len(b))
 
-\* the statement that gives module T the object that name r denotes in S
-NeededImport(w, S, r) ==
-  LET k == CHOOSE j \in Binders(w, S, r) : TRUE
-      s == w.body[S][k]
-  IN IF s.k = "def" THEN From(0, S, <<FromItem(r, "")>>) ELSE AbsStmt(w, S, s)
+\* the statements that give module T the object that name r denotes in S: a from-import of a name
+\* defined in S, or the import statement(s) of S that bind r (several only when all of them are
+\* plain imports under the same top-level package: import p.b2 / import p.b)
+NeededImports(w, S, r) ==
+  { IF w.body[S][k].k = "def" THEN From(0, S, <<FromItem(r, "")>>) ELSE AbsStmt(w, S, w.body[S][k])
+    : k \in Binders(w, S, r) }
+NeedsAreClear(w, S, r) ==
+  \/ Cardinality(Binders(w, S, r)) = 1
+  \/ Binders(w, S, r) # {} /\ \A k \in Binders(w, S, r) : OnlyPlainFor(w.body[S][k], r)
 
 RefRoots(d) == { d.refs[j][1] : j \in DOMAIN d.refs }
 
@@ -958,7 +962,7 @@ MGDest(w, S, i, T) ==
       tb0 == w.body[T]
       tb1 == FlatMap(Len(tb0), LAMBDA k : MGStmt(w, T, S, d.n, T, tb0[k]), 1)
       tb == [k \in DOMAIN tb1 |-> MapExpr(tb1[k], LAMBDA e : MGExpr(st, T, S, d.n, T, e))]
-      need == { NeededImport(w, S, r) : r \in RefRoots(d) }
+      need == UNION { NeededImports(w, S, r) : r \in RefRoots(d) }
       fresh == { x \in need : \A k \in DOMAIN tb : tb[k] # x }
       fut == IF tb # <<>> /\ tb[1].k = "future" THEN <<tb[1]>> ELSE <<>>
       lead == SubSeq(Lead(tb), Len(fut) + 1, Len(Lead(tb)))
@@ -988,18 +992,21 @@ MoveGlobalLegal(w, S, i, T) ==
           w.body[T][k].k = "from" /\ FromTarget(w, T, w.body[T][k]) = S
      /\ \A r \in RefRoots(d) :
           /\ r # d.n
-          /\ Cardinality(Binders(w, S, r)) = 1
-          /\ LET x == NeededImport(w, S, r) IN
+          /\ NeedsAreClear(w, S, r)
+          /\ \A x \in NeededImports(w, S, r) :
              \/ \E k \in DOMAIN w.body[T] : w.body[T][k] = x
-             \/ DeclaredNames(w, S, x) \cap AllBound(w, T) = {}
+             \/ \A n \in DeclaredNames(w, S, x) :
+                  \A k \in DOMAIN w.body[T] : n \in BoundNames(w, T, w.body[T][k]) =>
+                     (OnlyPlainFor(x, n) /\ OnlyPlainFor(w.body[T][k], n))
      \* the names the added statements bind do not collide with each other
      /\ \A r1 \in RefRoots(d), r2 \in RefRoots(d) :
-          LET x1 == NeededImport(w, S, r1)
-              x2 == NeededImport(w, S, r2)
-          IN x1 # x2 => DeclaredNames(w, S, x1) \cap DeclaredNames(w, S, x2) = {}
+          \A x1 \in NeededImports(w, S, r1), x2 \in NeededImports(w, S, r2) :
+            x1 # x2 => \A n \in DeclaredNames(w, S, x1) \cap DeclaredNames(w, S, x2) :
+                         OnlyPlainFor(x1, n) /\ OnlyPlainFor(x2, n)
      \* a module that star-imports the destination does not bind, in some other way, a name the
      \* destination gains (the star import would start to provide it)
-     /\ LET gained == {d.n} \cup UNION { DeclaredNames(w, S, NeededImport(w, S, r)) : r \in RefRoots(d) }
+     /\ LET gained == {d.n} \cup UNION { UNION { DeclaredNames(w, S, x) : x \in NeededImports(w, S, r) }
+                                          : r \in RefRoots(d) }
         IN \A C \in Mods(w) \ {T} :
              (\E k \in DOMAIN w.body[C] : IsStar(w.body[C][k]) /\ FromTarget(w, C, w.body[C][k]) = T)
                => \A k \in DOMAIN w.body[C] :
